@@ -20,5 +20,6 @@ def run(project, rep):
     rep.run(G.g_r8_flags_reach_client, project, rep)
     rep.run(G.g_r9_same_section, project, rep)
     rep.run(G.g_r10_only_the_parser_writes, project, rep)
+    rep.run(G.g_r11_unreachable_ofxhome_sets_nothing, project, rep)
     from .. import rules_values as V
     rep.run(V.v_r8_token_tables, project, rep, modules_prefix=("ofxtools.scripts.ofxget",))
